@@ -137,6 +137,66 @@ func c02Consumption(c *Ctx, p *Prog, pi *parserInfo) {
 			}():
 				c.OK("C02-R9", key, pos, "Next(len(P)+k) under HasPrefix(input, P), after looking at the k bytes that follow the prefix")
 				continue
+			case func() bool { // len(P) + i + 1 under HasPrefix(input, P), i the scan index over input[len(P):]
+				bo, ok := n.(*ssa.BinOp)
+				if !ok || bo.Op != token.ADD {
+					return false
+				}
+				if k, isK := constInt(bo.Y); !isK || k != 1 {
+					return false
+				}
+				sum, ok := bo.X.(*ssa.BinOp)
+				if !ok || sum.Op != token.ADD {
+					return false
+				}
+				for _, pair := range [][2]ssa.Value{{sum.X, sum.Y}, {sum.Y, sum.X}} {
+					lenCall, isCall := pair[0].(*ssa.Call)
+					if !isCall {
+						continue
+					}
+					bi, isB := lenCall.Call.Value.(*ssa.Builtin)
+					if !isB || bi.Name() != "len" {
+						continue
+					}
+					pfx := lenCall.Call.Args[0]
+					// the scan runs over what follows the prefix
+					var rest *ssa.Slice
+					eachInstr(fn, func(in ssa.Instruction) {
+						if sl, isSl := in.(*ssa.Slice); isSl && sl.X == input && sl.High == nil && sl.Low != nil {
+							if lc, isLC := sl.Low.(*ssa.Call); isLC {
+								if b2, isB2 := lc.Call.Value.(*ssa.Builtin); isB2 && b2.Name() == "len" && sameValue(lc.Call.Args[0], pfx) {
+									rest = sl
+								}
+							}
+						}
+					})
+					if rest == nil || !(isRangeIndexOver(pair[1], input) || isRangeIndexValue(pair[1], input)) {
+						continue
+					}
+					// … over exactly that rest: the index is bounded by len(rest)
+					overRest := false
+					for _, r := range referrers(pair[1]) {
+						if cmp, isCmp := r.(*ssa.BinOp); isCmp && cmp.Op == token.LSS && cmp.X == pair[1] {
+							if lc, isLC := cmp.Y.(*ssa.Call); isLC && len(lc.Call.Args) == 1 && lc.Call.Args[0] == ssa.Value(rest) {
+								overRest = true
+							}
+						}
+					}
+					if !overRest {
+						continue
+					}
+					for _, g := range rawGuardsAt(b) {
+						if gc, okC := g.Cond.(*ssa.Call); okC && g.Positive && calleeName(&gc.Call) == "bytes.HasPrefix" && len(gc.Call.Args) == 2 && sliceRoot(gc.Call.Args[0]) == input && sameValue(gc.Call.Args[1], pfx) {
+							if _, isSl := gc.Call.Args[0].(*ssa.Slice); !isSl {
+								return true
+							}
+						}
+					}
+				}
+				return false
+			}():
+				c.OK("C02-R9", key, pos, "Next(len(P) + scan index + 1) under HasPrefix(input, P), the scan running over input[len(P):]: the prefix and everything up to the byte just examined")
+				continue
 			case func() bool { // len(P) under HasPrefix(input, P)
 				call, ok := n.(*ssa.Call)
 				if !ok {
